@@ -339,6 +339,105 @@ pub fn record(args: &[String]) -> anyhow::Result<()> {
     Ok(())
 }
 
+/// One VMess connection that lives longer than its 16-bit chunk counter has values: `chunks` one-byte writes through the
+/// real client encoder, opened by the reference opener (whose counter wraps, as v2ray's uint16 does) and logged as units;
+/// and the same number of reference-made chunks through the real server decoder.
+pub fn long_session(args: &[String]) -> anyhow::Result<()> {
+    util::quiet_panics();
+    let o = util::opts(args);
+    let chunks = util::opt_u64(&o, "chunks", 66000) as usize;
+    let out = o.get("out").cloned().unwrap_or_else(|| "c12_long".to_owned());
+    let mut rng = SmallRng::seed_from_u64(util::opt_u64(&o, "seed", 1));
+    let mut errors: Vec<String> = Vec::new();
+    let mut files: Vec<String> = Vec::new();
+    let mut units_total = 0u64;
+    for cipher in c04::VMESS {
+        let addr = stream::test_addr(0);
+        let ccfg = sut::vmess_client_cfg(cipher, sut::UUID_A);
+        let ck = rv::cmd_key(sut::UUID_A).unwrap();
+        // real encoder -> reference opener
+        let run = (|| -> Result<String, String> {
+            let mut client = cv::tcp_codec(&ccfg, &addr.to_octo()).map_err(|e| e.to_string())?;
+            let mut c2s = BytesMut::new();
+            for i in 0..chunks {
+                client.encode(BytesMut::from(&[(i % 251) as u8][..]), &mut c2s).map_err(|e| format!("encode of write {i}: {e}"))?;
+            }
+            let (_, h, hlen) = rv::open_request_header(&ck, &c2s).ok_or("reference opener cannot open the real client's VMess header")?;
+            let req = rv::VmessReq::parse(&h).ok_or("reference parser rejects the real client's VMess header")?;
+            let mut body = rv::VmessBody::new(req.option, req.security, req.key, req.iv, req.key, req.iv);
+            let (units, failed, rest) = body.open_all(&c2s[hlen..], hlen);
+            let pays = units.iter().filter(|u| u.kind == "pay").count();
+            if failed.is_some() || rest != 0 {
+                return Err(format!("vmess:{cipher}: the reference opener (16-bit counter that wraps to 0) cannot read chunk {} of {} written by the real encoder", pays + 1, chunks));
+            }
+            for (i, u) in units.iter().filter(|u| u.kind == "pay").enumerate() {
+                if u.plain != [(i % 251) as u8] {
+                    return Err(format!("vmess:{cipher}: chunk {} opens to other bytes than were written", i + 1));
+                }
+            }
+            let p = format!("{out}_{cipher}.ndjson");
+            let mut w = std::io::BufWriter::new(std::fs::File::create(&p).map_err(|e| e.to_string())?);
+            let mut r = Rec { w: &mut w, fresh: Vec::new(), ids: Ids::default(), units: 0, sessions: 0 };
+            r.session(&format!("vmess:{cipher}"), "c2s", "vmess-stream", 1 << 14);
+            r.unit("hdrlen", &[&c2s[..16], &c2s[34..42], b"len"].concat(), 0, false, 2);
+            r.unit("hdr", &[&c2s[..16], &c2s[34..42], b"hdr"].concat(), 0, false, h.len());
+            for u in &units {
+                match u.kind {
+                    "size" if u.nonce >= 0 => r.unit("size", &[&req.key[..], b"auth_len c2s"].concat(), u.nonce, true, 2),
+                    "pay" => r.unit("pay", &[&req.key[..], b"body c2s"].concat(), u.nonce, true, u.plain.len()),
+                    _ => {}
+                }
+            }
+            units_total += r.units;
+            drop(r);
+            w.flush().map_err(|e| e.to_string())?;
+            Ok(p)
+        })();
+        match run {
+            Ok(p) => files.push(p),
+            Err(e) => errors.push(e),
+        }
+        // reference encoder -> real decoder
+        let sec = if cipher == "aes-128-gcm" { rv::SEC_AES128_GCM } else { rv::SEC_CHACHA20_POLY1305 };
+        let req = rv::VmessReq { iv: rng.random(), key: rng.random(), resp_auth: rng.random(), option: 0x1d, security: sec, cmd: 1, addr: addr.clone(), header_padding: 0 };
+        let aid = rv::auth_id(&ck, rc::unix_now() as i64, rng.random(), false);
+        let mut wire = rv::seal_request_header(&ck, &aid, &rng.random(), &req.plain_header());
+        let mut body = rv::VmessBody::new(req.option, sec, req.key, req.iv, req.key, req.iv);
+        for i in 0..chunks {
+            body.chunk(&[(i % 251) as u8], &mut wire);
+        }
+        let res = (|| -> Result<(), String> {
+            let listener = sv::listener(&sut::vmess_server_cfg(&[sut::UUID_A])).map_err(|e| e.to_string())?;
+            let mut server = listener.new_codec().map_err(|e| e.to_string())?;
+            let mut buf = BytesMut::from(&wire[..]);
+            let mut got = 0usize;
+            loop {
+                match sut::server_decode(&mut server, &mut buf) {
+                    sut::Got::Connect(b, _) | sut::Got::Tcp(b) => {
+                        for x in b {
+                            if x != (got % 251) as u8 {
+                                return Err(format!("vmess:{cipher}: the real decoder released other bytes than the reference wrote at chunk {}", got + 1));
+                            }
+                            got += 1;
+                        }
+                    }
+                    sut::Got::None => break,
+                    other => return Err(format!("vmess:{cipher}: the real decoder refuses chunk {} of {} written by the reference encoder (16-bit counter that wraps to 0): {:?}", got + 1, chunks, other)),
+                }
+            }
+            if got != chunks {
+                return Err(format!("vmess:{cipher}: the real decoder released {got} of {chunks} chunks"));
+            }
+            Ok(())
+        })();
+        if let Err(e) = res {
+            errors.push(e);
+        }
+    }
+    println!("{}", json!({"summary": true, "files": files, "units": units_total, "chunks": chunks, "errors": errors}));
+    Ok(())
+}
+
 // ------------------------------------------------------------------------------------------------
 // C03: message scripts in both directions
 
@@ -361,6 +460,14 @@ pub fn c03_replay(args: &[String]) -> anyhow::Result<()> {
             "vmess-udp" => c04::VMESS.iter().map(|c| format!("vmess-udp-{dir}:{c}:{mask}")).collect(),
             "trojan" => vec![format!("trojan-{dir}")],
             "trojan-udp" => vec![format!("trojan-udp-{dir}")],
+            "ss2022-eih2" | "ss2022-eih3" => {
+                // a chain of identity keys: judged header by header against the reference
+                for c in [Cipher::Aes128Gcm2022, Cipher::Aes256Gcm2022] {
+                    let why = eih_chain(c, if family == "ss2022-eih2" { 2 } else { 3 }, sizes.first().copied().unwrap_or(1), &mut rng);
+                    writeln!(stdout.lock(), "{}", json!({"scenario": sc, "proto": format!("ss-req:{}:eih-chain", c.name()), "ok": why.is_empty(), "why": why}))?;
+                }
+                vec![]
+            }
             _ => vec![],
         };
         for proto in protos {
@@ -385,5 +492,45 @@ pub fn c03_replay(args: &[String]) -> anyhow::Result<()> {
     Ok(())
 }
 
-#[allow(dead_code)]
-fn unused(_: Addr) {}
+/// The real client with `hops` identity keys in its password (iPSK_1:..:iPSK_hops:uPSK): every identity header on the wire
+/// must be the one SIP023 prescribes - header i = AES-ECB(identity_subkey(iPSK_i, salt), blake3(next key)[..16]) - and the
+/// rest of the request must open under the user key.
+fn eih_chain(c: Cipher, hops: usize, first_write: usize, rng: &mut SmallRng) -> Vec<String> {
+    let mut why = Vec::new();
+    let keys: Vec<Vec<u8>> = (0..=hops).map(|i| sut::key_raw(c, 120 + i as u8)).collect();
+    let pw: String = keys.iter().map(|k| rc::b64e(k)).collect::<Vec<_>>().join(":");
+    let addr = stream::test_addr(rng.random_range(0..3));
+    let cfg = json!({"host":"127.0.0.1","port":1,"password":pw,"protocol":"shadowsocks","cipher":c.name()}).to_string();
+    let mut client = match cv::tcp_codec(&cfg, &addr.to_octo()) {
+        Ok(x) => x,
+        Err(e) => return vec![format!("client refuses a password with {hops} identity keys: {e}")],
+    };
+    let payload = vec![0x5au8; first_write.min(60000)];
+    let mut wire = BytesMut::new();
+    if let Err(e) = client.encode(BytesMut::from(&payload[..]), &mut wire) {
+        return vec![format!("encode: {e}")];
+    }
+    let n = c.key_len();
+    if wire.len() < n + 16 * hops {
+        return vec!["request shorter than salt + identity headers".to_owned()];
+    }
+    let salt = wire[..n].to_vec();
+    for i in 0..hops {
+        let sub = rc::identity_subkey(&keys[i], &salt);
+        let mut block: [u8; 16] = blake3::hash(&keys[i + 1]).as_bytes()[..16].try_into().unwrap();
+        rc::aes_ecb_encrypt(&sub[..n], &mut block);
+        if wire[n + 16 * i..n + 16 * (i + 1)] != block {
+            why.push(format!("identity header {} of {} is not AES(identity_subkey(iPSK_{}, salt), blake3(key_{})[..16])", i + 1, hops, i + 1, i + 2));
+        }
+    }
+    let o = rc::open_ss_stream(c, &keys[hops], &wire, hops, Some(11));
+    if o.failed_at.is_some() || o.rest != 0 {
+        why.push(format!("the request behind the identity headers does not open under the user key (failed at {:?})", o.failed_at));
+    } else {
+        let plain: Vec<u8> = o.units.iter().filter(|u| u.kind == "var" || u.kind == "pay").flat_map(|u| u.plain.clone()).collect();
+        if !plain.ends_with(&payload) {
+            why.push("payload differs".to_owned());
+        }
+    }
+    why
+}
